@@ -10,6 +10,8 @@ import (
 	"encoding/json"
 	"fmt"
 	godcp "github.com/Trendyol/go-dcp"
+	"github.com/Trendyol/go-dcp/helpers"
+	"github.com/Trendyol/go-dcp/membership"
 	"os"
 	"path/filepath"
 	"sort"
@@ -648,6 +650,9 @@ type c02RO struct {
 	Reset   string `json:"reset"`   // earliest | latest ('latest' without documents flags the start positions for saving)
 	Stored  []int  `json:"stored"`  // per vBucket (8): stored seqno, 0 = no document
 	Events  []int  `json:"events"`  // per vBucket: events delivered and acknowledged
+	// Rebalance: another member of the group advances the stored checkpoints, then a rebalance opens a second session
+	// in the same process: it resumes from what the store says NOW (loads are identical to a read-write client's)
+	Rebalance bool `json:"rebalance,omitempty"`
 }
 
 func c02ExecRODcp(sc c02RO) string {
@@ -727,6 +732,45 @@ func c02ExecRODcp(sc c02RO) string {
 	}
 	d.Commit()
 	time.Sleep(20 * time.Millisecond)
+	if sc.Rebalance {
+		ext := map[uint16]ckTuple{}
+		for vb, t := range stored {
+			t.Seq, t.Start, t.End = t.Seq+10, t.Seq+10, t.Seq+10
+			ext[vb] = t
+		}
+		if sc.Backend == "file" {
+			st := map[uint16]*models.CheckpointDocument{}
+			for v := 0; v < nvb; v++ {
+				st[uint16(v)] = c02DocOf(ext[uint16(v)], "u")
+			}
+			if len(stored) > 0 {
+				_ = metadata.NewFSMetadata(cfg).Save(st, nil, "u")
+			}
+			before, _ = os.ReadFile(filePath)
+		} else {
+			fm.mu.Lock()
+			for vb, t := range ext {
+				fm.durable[vb] = t
+			}
+			fm.mu.Unlock()
+		}
+		n0 := len(cl.openLog())
+		godcp.VerifBus(d).Publish(helpers.MembershipChangedBusEventName, &membership.Model{MemberNumber: 1, TotalMembers: 1})
+		for t0 := time.Now(); len(cl.openLog()) < n0+nvb && time.Since(t0) < 10*time.Second; {
+			time.Sleep(time.Millisecond)
+		}
+		second := cl.openLog()[n0:]
+		if len(second) < nvb {
+			return fmt.Sprintf("read-only mode: the rebalance reopened %d of %d vBuckets", len(second), nvb)
+		}
+		time.Sleep(10 * time.Millisecond)
+		for _, o := range second {
+			got := ckTuple{UUID: uint64(o.Off.VbUUID), Seq: o.Off.SeqNo, Start: o.Snap.StartSeqNo, End: o.Snap.EndSeqNo}
+			if want, has := ext[o.Vb]; has && got != want {
+				return fmt.Sprintf("read-only mode, second session in the same process: vb %d requested with %+v, the store now says %+v (loads must be identical to what is persisted)", o.Vb, got, want)
+			}
+		}
+	}
 	d.Close()
 	select {
 	case pv := <-done:
@@ -757,6 +801,7 @@ func TestC02_ReadOnlyDcp(t *testing.T) {
 			Reset: rapid.SampledFrom([]string{"earliest", "latest"}).Draw(rt, "reset")}
 		sc.Stored = rapid.SliceOfN(rapid.SampledFrom([]int{0, 0, 1, 7, 50}), 1, 8).Draw(rt, "stored")
 		sc.Events = rapid.SliceOfN(rapid.IntRange(0, 3), 1, 8).Draw(rt, "events")
+		sc.Rebalance = rapid.Bool().Draw(rt, "rebalance")
 		journal("C02", "c02rodcp", sc)
 		d := c02ExecRODcp(sc)
 		journalDone()
@@ -767,7 +812,11 @@ func TestC02_ReadOnlyDcp(t *testing.T) {
 		for _, e := range sc.Events {
 			ev += e
 		}
-		record("C02", sc, ev > 0, "readonly_dcp_cases", "readonly_dcp_"+sc.Backend)
+		labs := []string{"readonly_dcp_cases", "readonly_dcp_" + sc.Backend}
+		if sc.Rebalance {
+			labs = append(labs, "readonly_second_session")
+		}
+		record("C02", sc, ev > 0, labs...)
 	})
 }
 
